@@ -103,9 +103,13 @@ func (fsm *storeFSM) Apply(l *raft.Log) interface{} {
 		}
 	}()
 
-	// Copy term and index to new metadata.
-	fsm.data.Term = l.Term
-	fsm.data.Index = l.Index
+	// Copy term and index to new metadata. A rejected command leaves the published object in
+	// place, and a snapshot that is being persisted may still refer to it: stamp a copy, never
+	// an object that has been handed out.
+	data := *fsm.data
+	data.Term = l.Term
+	data.Index = l.Index
+	fsm.data = &data
 
 	// signal that the data changed
 	close(s.dataChanged)
